@@ -1547,7 +1547,7 @@ def run_check(pid, argv=None):
     import json
     from common import Check, InfraError, run_driver, ddmin
     ck = Check(pid, argv)
-    ck.extra['modules'] = ['Props.' + pid, 'Drivers.Conn']
+    ck.extra['modules'] = ['Props.' + pid, 'Drivers.Conn'] + (['Drivers.TmpBytes'] if pid == 'C12' else [])
     ck.run_gate(ck.extra['modules'], ['Props.' + pid])
     ncases = (300 if pid == 'C11' else 300) if not ck.thorough else (10000 if pid == 'C11' else 20000)
     cases = load_corpus(pid)
@@ -1556,6 +1556,18 @@ def run_check(pid, argv=None):
             c = json.load(f)['case']
         cases = [{k: c[k] for k in ('kind', 'n', 'ops', 'selfact', 'family', 'as', 'two', 'db', 'loose', 'big', 'explicit') if k in c}]
         ncases = 0
+        if c.get('family') == 'tmpstore-bytes':     # the byte level of the savepoint store: its own runner
+            import c12_tmpbytes
+            real, bad = c12_tmpbytes.run_real(c['ops'])
+            model = run_driver('TmpBytes', ['new'] + list(c['ops']))
+            ck.case(dict(tmpstore=c['ops']), True)
+            if bad:
+                ck.violation('C12:tmpstore:load', 'TmpStore (savepoint store, byte level): ' + bad[0][1],
+                             dict(family='tmpstore-bytes', ops=c['ops'], real=real))
+            elif real != model:
+                ck.mismatch('TmpStore byte model/impl differ', dict(family='tmpstore-bytes', ops=c['ops'], real=real,
+                                                                     model=model))
+            return ck
     kinds = KINDS
     for m in range(ncases):
         size = ck.rng.choice([6, 10, 16, 24, 36])
@@ -1694,4 +1706,8 @@ def run_check(pid, argv=None):
                             dict(kind=case['kind'], n=case['n'], ops=case['ops'][:k], real=real[:k + 1],
                                  model=model[:k + 1]))
                 break
+    if pid == 'C12' and not ck.replay_path:
+        # the byte level of the savepoint store (ZodbModel/TmpBytes.lean): the real TmpStore class alone
+        import c12_tmpbytes
+        c12_tmpbytes.run(ck, run_driver, ddmin)
     return ck
